@@ -1,5 +1,5 @@
 """Scripted step command: applies file operations to the current directory.
-argv: ops like create:path:text  modify:path:text  delete:path  rename:a:b  mkdir:path  cd:dir  echo:text  exit:n"""
+argv: ops like create:path:text  modify:path:text  delete:path  rename:a:b  stamp:path  mkdir:path  cd:dir  echo:text  exit:n"""
 import os
 import sys
 
@@ -18,6 +18,16 @@ for op in sys.argv[1:]:
     elif kind == "rename":
         a, _, b = rest.partition(":")
         os.rename(a, b)
+    elif kind == "stamp":
+        # change the content but neither the size nor the time stamps (a fixed-width build id patched in place and the
+        # mtime clamped, `cp -p`, `touch -r`, ...): only reading the file again shows the change
+        st = os.stat(rest)
+        with open(rest, "rb") as f:
+            data = f.read()
+        if data:
+            with open(rest, "r+b") as f:
+                f.write(bytes([data[0] ^ 1]) + data[1:])
+            os.utime(rest, ns=(st.st_atime_ns, st.st_mtime_ns))
     elif kind == "cd":
         os.chdir(rest)
     elif kind == "mkdir":
